@@ -479,6 +479,10 @@ def run(ctx, res):
               # the inputs on which the conversions raised before /repo commits 94d9e8e, 9837dd8
               ("not", ("or", (1, ("and", (2, 3))))), ("not", ("not", ("or", ()))), ("and", (("or", ()), 1)),
               ("or", (("not", ("and", (1, 2))), ("not", ("or", (3, ("iff", 1, 2)))))),
+              # an implication together with its converse, an equivalence with its operands swapped: the
+              # Tseitin cache must not identify If(p,q) with If(q,p) (seed C11-tseitin-cache-key-sorted-operands)
+              ("and", (("if", 1, 2), ("if", 2, 1))), ("or", (("if", 1, 2), ("if", 2, 1))),
+              ("and", (("iff", 1, 2), ("iff", 2, 1), ("if", ("and", (1, 3)), 2), ("if", 2, ("and", (1, 3))))),
               # recursion depth of __distribute_ors_switching: many conjunctions in one disjunction,
               # negative leaves (they sort before the compound members)
               ("or", tuple(("and", (2 * i + 1, 2 * i + 2)) for i in range(9))),
